@@ -9,6 +9,7 @@ def mc_phase(c, module, cfg=None, workers=4, require_actions=True, timeout=1800,
     """Model-check a bounded configuration; every action of the model must be taken (vacuity guard)."""
     r = vlib.tlc_ok(module, cfg=cfg, workers=workers, coverage=require_actions, timeout=timeout, heap=heap)
     c.add_tlc(r)
+    vlib.log('[mc] %s/%s: %d distinct states, %.1fs' % (module, cfg or module, r.distinct, r.wall))
     if require_actions:
         zero = r.coverage_zero_actions()
         if zero:
